@@ -1374,8 +1374,9 @@ static int ksi_CalendarHashChain_verifyRightLinkCompatibility(const KSI_Calendar
 			}
 		}
 
-		/* If the second list did not contain any more right links, return an error. */
-		if (bLink == NULL) {
+		/* If the second list did not contain any more right links, return an error
+		 * (when the search ran off the end, bLink is the last left link looked at). */
+		if (bLink == NULL || bLink->isLeft) {
 			KSI_LOG_debug(a->ctx, "Incompatible calendar hash chain - an missing right link in the second chain.");
 			res = KSI_INCOMPATIBLE_HASH_CHAIN;
 			goto cleanup;
